@@ -762,6 +762,30 @@ static carquet_status_t load_dictionary_page_mmap(
 }
 
 /* ============================================================================
+ * Positioned read on the reader's stream
+ * ============================================================================
+ *
+ * All column readers of a file share the reader's one FILE*, and the batch
+ * reader loads the pages of different columns from OpenMP worker threads. The
+ * stream position is therefore shared: a seek and the read that relies on it
+ * must not be separated by another thread's seek or read, or the read returns
+ * the bytes of some other column's page. Seek and read form one critical
+ * section. Returns the number of bytes read, or (size_t)-1 if the seek failed.
+ */
+static size_t file_read_at(FILE* file, int64_t offset, void* buf, size_t size) {
+    size_t got = (size_t)-1;
+#ifdef _OPENMP
+    #pragma omp critical(carquet_file_io)
+#endif
+    {
+        if (fseek(file, (long)offset, SEEK_SET) == 0) {
+            got = fread(buf, 1, size, file);
+        }
+    }
+    return got;
+}
+
+/* ============================================================================
  * Helper: Load dictionary page (fread path)
  * ============================================================================
  */
@@ -775,15 +799,13 @@ static carquet_status_t load_dictionary_page_fread(
     FILE* file = file_reader->file;
     const parquet_column_metadata_t* col_meta = reader->col_meta;
 
-    /* Seek to dictionary page */
-    if (fseek(file, dict_offset, SEEK_SET) != 0) {
+    /* Seek to dictionary page and read page header */
+    uint8_t header_buf[256];
+    size_t header_read = file_read_at(file, dict_offset, header_buf, sizeof(header_buf));
+    if (header_read == (size_t)-1) {
         CARQUET_SET_ERROR(error, CARQUET_ERROR_FILE_SEEK, "Failed to seek to dictionary");
         return CARQUET_ERROR_FILE_SEEK;
     }
-
-    /* Read page header */
-    uint8_t header_buf[256];
-    size_t header_read = fread(header_buf, 1, sizeof(header_buf), file);
     if (header_read < 8) {
         CARQUET_SET_ERROR(error, CARQUET_ERROR_FILE_READ, "Failed to read dictionary header");
         return CARQUET_ERROR_FILE_READ;
@@ -807,21 +829,21 @@ static carquet_status_t load_dictionary_page_fread(
         return status;
     }
 
-    /* Seek past header and read page data */
-    if (fseek(file, dict_offset + (long)header_size, SEEK_SET) != 0) {
-        CARQUET_SET_ERROR(error, CARQUET_ERROR_FILE_SEEK, "Failed to seek past dict header");
-        return CARQUET_ERROR_FILE_SEEK;
-    }
-
-    /* Allocate and read compressed data */
+    /* Allocate compressed buffer, seek past header and read page data */
     uint8_t* compressed = malloc(page_header.compressed_page_size);
     if (!compressed) {
         CARQUET_SET_ERROR(error, CARQUET_ERROR_OUT_OF_MEMORY, "Failed to allocate compressed buffer");
         return CARQUET_ERROR_OUT_OF_MEMORY;
     }
 
-    if (fread(compressed, 1, page_header.compressed_page_size, file) !=
-        (size_t)page_header.compressed_page_size) {
+    size_t data_read = file_read_at(file, dict_offset + (int64_t)header_size,
+                                    compressed, (size_t)page_header.compressed_page_size);
+    if (data_read == (size_t)-1) {
+        free(compressed);
+        CARQUET_SET_ERROR(error, CARQUET_ERROR_FILE_SEEK, "Failed to seek past dict header");
+        return CARQUET_ERROR_FILE_SEEK;
+    }
+    if (data_read != (size_t)page_header.compressed_page_size) {
         free(compressed);
         CARQUET_SET_ERROR(error, CARQUET_ERROR_FILE_READ, "Failed to read dictionary data");
         return CARQUET_ERROR_FILE_READ;
@@ -1149,16 +1171,15 @@ static carquet_status_t load_next_page_fread(
         }
     }
 
-    /* Seek to data page */
+    /* Seek to data page and read page header */
     int64_t data_offset = reader->data_start_offset;
-    if (fseek(file, data_offset + reader->current_page, SEEK_SET) != 0) {
+    uint8_t header_buf[256];
+    size_t header_read = file_read_at(file, data_offset + reader->current_page,
+                                      header_buf, sizeof(header_buf));
+    if (header_read == (size_t)-1) {
         CARQUET_SET_ERROR(error, CARQUET_ERROR_FILE_SEEK, "Failed to seek to data page");
         return CARQUET_ERROR_FILE_SEEK;
     }
-
-    /* Read page header */
-    uint8_t header_buf[256];
-    size_t header_read = fread(header_buf, 1, sizeof(header_buf), file);
     if (header_read < 8) {
         CARQUET_SET_ERROR(error, CARQUET_ERROR_FILE_READ, "Failed to read page header");
         return CARQUET_ERROR_FILE_READ;
@@ -1194,21 +1215,21 @@ static carquet_status_t load_next_page_fread(
         return status;
     }
 
-    /* Seek past header and read page data */
-    if (fseek(file, data_offset + reader->current_page + (long)header_size, SEEK_SET) != 0) {
-        CARQUET_SET_ERROR(error, CARQUET_ERROR_FILE_SEEK, "Failed to seek past header");
-        return CARQUET_ERROR_FILE_SEEK;
-    }
-
-    /* Allocate and read compressed data */
+    /* Allocate compressed buffer, seek past header and read page data */
     uint8_t* compressed = malloc(page_header.compressed_page_size);
     if (!compressed) {
         CARQUET_SET_ERROR(error, CARQUET_ERROR_OUT_OF_MEMORY, "Failed to allocate compressed buffer");
         return CARQUET_ERROR_OUT_OF_MEMORY;
     }
 
-    if (fread(compressed, 1, page_header.compressed_page_size, file) !=
-        (size_t)page_header.compressed_page_size) {
+    size_t data_read = file_read_at(file, data_offset + reader->current_page + (int64_t)header_size,
+                                    compressed, (size_t)page_header.compressed_page_size);
+    if (data_read == (size_t)-1) {
+        free(compressed);
+        CARQUET_SET_ERROR(error, CARQUET_ERROR_FILE_SEEK, "Failed to seek past header");
+        return CARQUET_ERROR_FILE_SEEK;
+    }
+    if (data_read != (size_t)page_header.compressed_page_size) {
         free(compressed);
         CARQUET_SET_ERROR(error, CARQUET_ERROR_FILE_READ, "Failed to read page data");
         return CARQUET_ERROR_FILE_READ;
